@@ -1301,6 +1301,25 @@ mut("C06", "id-scan-bounded-by-len", "R06-7|shell::Shell::get_job_by_gid|scan-bo
             i += 1;
             if i > self.jobs.len() as i32 {"""))
 
+mut("C14", "for-word-whole-when-no-blank", "R14-10|scripting::get_for_result_from_init|whole-token-untagged",
+    "an unquoted for-list token without a blank is taken whole, even when empty",
+    (SC, """                if sep.is_empty() {
+                    for x in token.split_whitespace() {""", """                if sep.is_empty() && token.contains(' ') {
+                    for x in token.split_whitespace() {"""))
+mut("C13", "command-word-reparsed", "R13-6|types::CommandLine::from_line|retokenized",
+    "a backquote result in command position is tokenized again",
+    (T, """        let envs = drain_env_tokens(&mut tokens);
+
+        let mut background = false;""", """        let envs = drain_env_tokens(&mut tokens);
+        if let Some((sep, word)) = tokens.first().cloned() {
+            if sep == "`" && word.contains(' ') {
+                let head = parsers::parser_line::parse_line(&word).tokens;
+                tokens.splice(0..1, head);
+            }
+        }
+
+        let mut background = false;"""))
+
 # ------------------------------------------------------------------ more refactors
 ref("history-params-vec", ["C18"], "bind the INSERT parameters through a params! style slice",
     (H, "    match conn.execute(&sql, [line.trim(), info.as_str()]) {",
